@@ -137,6 +137,29 @@ TIES = {
     'C18': ['Basic', 'Keygen', 'Sign', 'Verify', 'Derive', 'Serialise', 'Ntt'],
 }
 
+# statement-level tie: fingerprints of the text of the hand-modelled functions each property runs through (Gen/Shapes, Lemmas/SrcTie/Shape*)
+_ALL_SHAPES = ['ShapeXof', 'ShapeSampleA', 'ShapeSampleS', 'ShapeMask', 'ShapeBall', 'ShapePrehash', 'ShapePack', 'ShapeUnpack', 'ShapeHint', 'ShapePk', 'ShapeSk',
+               'ShapeSig', 'ShapeLin', 'ShapeKeygen', 'ShapeSign', 'ShapeVerify', 'ShapeExpand', 'ShapeDerive', 'ShapeApiKeygen', 'ShapeApiSign', 'ShapeApiVerify',
+               'ShapeApiSerde']
+SHAPES = {
+    'C01': _ALL_SHAPES,
+    'C02': ['ShapeXof', 'ShapeSampleA', 'ShapeBall', 'ShapePrehash', 'ShapeUnpack', 'ShapeHint', 'ShapePk', 'ShapeSig', 'ShapeLin', 'ShapeVerify', 'ShapeExpand', 'ShapeApiVerify'],
+    'C03': ['ShapeXof', 'ShapeSampleA', 'ShapeMask', 'ShapeBall', 'ShapePrehash', 'ShapePack', 'ShapeUnpack', 'ShapeHint', 'ShapeSk', 'ShapeSig', 'ShapeLin', 'ShapeSign',
+            'ShapeExpand', 'ShapeApiSign'],
+    'C04': ['ShapeXof', 'ShapeSampleA', 'ShapeSampleS', 'ShapePack', 'ShapePk', 'ShapeSk', 'ShapeLin', 'ShapeKeygen', 'ShapeApiKeygen', 'ShapeApiSerde'],
+    'C05': ['ShapeXof', 'ShapeSampleA', 'ShapeBall', 'ShapePrehash', 'ShapeUnpack', 'ShapeHint', 'ShapePk', 'ShapeSig', 'ShapeLin', 'ShapeVerify', 'ShapeExpand', 'ShapeApiVerify'],
+    'C06': ['ShapePrehash', 'ShapeSign', 'ShapeVerify', 'ShapeApiSign', 'ShapeApiVerify'],
+    'C07': ['ShapeApiSign', 'ShapeApiVerify'],
+    'C08': ['ShapePack', 'ShapeUnpack', 'ShapeHint', 'ShapeSig'],
+    'C09': ['ShapePack', 'ShapeUnpack', 'ShapePk', 'ShapeSk', 'ShapeLin', 'ShapeExpand', 'ShapeApiSerde'],
+    'C10': ['ShapeUnpack', 'ShapeSk', 'ShapeExpand', 'ShapeApiSerde'],
+    'C11': ['ShapeXof', 'ShapeSampleA', 'ShapeLin', 'ShapeKeygen', 'ShapeDerive', 'ShapeExpand', 'ShapeApiSerde'],
+    'C12': ['ShapeKeygen', 'ShapeApiKeygen', 'ShapeApiSign'],
+    'C13': _ALL_SHAPES,
+    'C14': ['ShapeApiDudect'],
+    'C18': ['ShapeLin'],
+}
+
 
 class Build:
     """result of preparing one property's obligations"""
@@ -151,7 +174,7 @@ class Build:
                                  if re.fullmatch(re.escape(base[:-5]) + r'[a-z]\.lean', f))
         self.modules = [self.module] + [c[:-5].replace('/', '.') for c in self.companions]
         # tie modules: theorems that the model runs the expressions translated from the current source
-        self.tie_files = [_T + t + '.lean' for t in TIES.get(prop, []) if os.path.exists(os.path.join(LEAN, _T + t + '.lean'))]
+        self.tie_files = [_T + t + '.lean' for t in TIES.get(prop, []) + SHAPES.get(prop, []) if os.path.exists(os.path.join(LEAN, _T + t + '.lean'))]
         self.modules += [f[:-5].replace('/', '.') for f in self.tie_files]
         self.translator = None
         self.lake_log = ''
@@ -177,6 +200,8 @@ class Build:
         if self.lean_errs:
             for k, v in ((self.translator or {}).get('Exprs.lean') or {}).get('unsupported', {}).items():
                 b.append(f"translator:Exprs:{k}: {v}")
+            for k, v in ((self.translator or {}).get('Shapes.lean') or {}).get('unsupported', {}).items():
+                b.append(f"translator:Shapes:{k}: {v}")
         for n, ax in self.bad_axioms.items():
             b.append(f"axioms:{n}: {ax}")
         for h in self.grep_hits:
